@@ -32,7 +32,7 @@ void runQt(const Scn &scn, Out &out)
         else if (op == "mcnt") out.obs << "i:" + QString::number(m.count(unhx(p[1])));
         else if (op == "mhas") out.obs << "i:" + QString::number(m.contains(unhx(p[1])) ? 1 : 0);
         else if (op == "b64") out.obs << "b:" + hx(QByteArray::fromBase64(unhx(p[1])));
-        else if (op == "pct") out.obs << "b:" + hx(QUrl::fromPercentEncoding(unhx(p[1])).toUtf8());
+        else if (op == "pct") out.obs << "b:" + hx(QByteArray::fromPercentEncoding(unhx(p[1])));   // byte level: QUrl::fromPercentEncoding adds a UTF-8 decoding
         else if (op == "clean") out.obs << "b:" + hx(QDir::cleanPath(QString::fromUtf8(unhx(p[1]))).toUtf8());
         else out.obs << "badop";
     }
